@@ -12,6 +12,8 @@ duration units), 'id' (identifier: any letter case per occurrence), 'lit', 'op';
 spell.py turns token lists into text.
 """
 
+import re
+
 KEYWORDS = set("""ACTION END_ACTION ARRAY OF AT CASE ELSE END_CASE CONSTANT CONFIGURATION END_CONFIGURATION EN ENO EXIT
 FALSE F_EDGE FOR TO BY DO END_FOR FUNCTION END_FUNCTION FUNCTION_BLOCK END_FUNCTION_BLOCK IF THEN ELSIF END_IF
 INITIAL_STEP END_STEP PROGRAM WITH END_PROGRAM R_EDGE READ_ONLY READ_WRITE REPEAT UNTIL END_REPEAT RESOURCE ON
@@ -131,10 +133,25 @@ class Gen:
                 s = s[:k] + "_" + s[k:]
             return s, v
         if form == "lit.int.hex":
-            return "16#%X" % v, v
+            return "16#" + self.us("%X" % v, "hex"), v
         if form == "lit.int.oct":
-            return "8#%o" % v, v
-        return "2#" + bin(v)[2:], v
+            return "8#" + self.us("%o" % v, "oct"), v
+        return "2#" + self.us(bin(v)[2:], "bin"), v
+
+    def us(self, digits, where, p=0.25):
+        """Digit-group underscores (integer ::= digit {['_'] digit}): legal wherever the grammar says `integer`."""
+        atom = "lit.underscore." + where
+        if len(digits) < 2 or not self.ok(atom) or not self.chance(p):
+            return digits
+        self.atom(atom)
+        out = digits[0]
+        for ch in digits[1:]:
+            if self.chance(0.4):
+                out += "_"
+            out += ch
+        if "_" not in out:
+            out = digits[0] + "_" + digits[1:]
+        return out
 
     def dec_text(self, lo=0, hi=1000):
         v = self.rng.randint(lo, hi)
@@ -184,6 +201,10 @@ class Gen:
                     v = float(s)
                 else:
                     self.atom("lit.real.integral")
+            # respell the digit groups with underscores (the value is unchanged)
+            m_ = re.match(r"(\d+)\.(\d+)(?:([Ee][+-]?)(\d+))?$", s)
+            s = self.us(m_.group(1), "real.whole") + "." + self.us(m_.group(2), "real.frac") + \
+                ((m_.group(3) + self.us(m_.group(4), "real.exp")) if m_.group(3) else "")
             toks = []
             dt = None
             if kind == "lit.real.typed":
@@ -226,7 +247,7 @@ class Gen:
             txt = "%d:%d:%d" % (h, m, s)
             if self.ok("lit.tod.fraction") and self.chance(0.3):
                 ms = r.randint(1, 999)
-                txt = "%d:%d:%d.%03d" % (h, m, s, ms)
+                txt = "%d:%d:%d.%s" % (h, m, s, self.us("%03d" % ms, "tod.frac"))
                 us = ms * 1000
                 self.atom("lit.tod.fraction")
             pfx = self.pick(["TOD", "TIME_OF_DAY"])
@@ -263,14 +284,14 @@ class Gen:
             toks.append(O("-", True))
         if form == "lit.duration.int":
             v = r.randint(0, 500)
-            toks += [L(str(v), True), TK(unit, True)]
+            toks += [L(self.us(str(v), "dur.int"), True), TK(unit, True)]
             ns = v * ns_per
         elif form == "lit.duration.fraction":
             v = r.randint(0, 500)
             f = r.randint(0, 999)
             if not self.ok("lit.duration.subms") and unit == "ms":
                 f = 0
-            toks += [L("%d.%03d" % (v, f), True), TK(unit, True)]
+            toks += [L(self.us(str(v), "dur.whole") + "." + self.us("%03d" % f, "dur.frac"), True), TK(unit, True)]
             ns = v * ns_per + f * ns_per // 1000
         else:
             units = [("d", 86400 * 10**9), ("h", 3600 * 10**9), ("m", 60 * 10**9), ("s", 10**9), ("ms", 10**6)]
@@ -333,7 +354,7 @@ class Gen:
                         stoks.append(O(","))
                     stoks += t
                     subs.append(e)
-                toks += [O("[", True)] + stoks + [O("]")]
+                toks += [O("[")] + stoks + [O("]")]
                 nf = ["index", nf, subs]
         return toks, nf
 
@@ -457,6 +478,11 @@ class Gen:
     def statements(self, depth, names, fbs=(), n=None, in_loop=False):
         toks, nfs = [], []
         n = self.rng.randint(1, 3) if n is None else n
+        if self.ok("stmts.only-empty") and self.ok("stmt.empty") and self.chance(0.04):
+            # a statement list made of empty statements only (`WHILE x DO ; END_WHILE`)
+            self.atom("stmts.only-empty")
+            self.atom("stmt.empty")
+            return [O(";")] * self.rng.randint(1, 2), []
         for _ in range(n):
             t, s = self.statement(depth, names, fbs, in_loop)
             toks += t
